@@ -48,11 +48,14 @@ BlocksToRows(ct, bs) ==
   IN [q \in 1..Len(firsts) |-> [rk |-> bs[firsts[q]].rk, vals |-> [c \in names |-> Cell(bs[firsts[q]].rk, c)]]]
 Reverse(sq) == [i \in 1..Len(sq) |-> sq[Len(sq) + 1 - i]]
 
-Init == /\ nk \in {1, 2} /\ nr \in {1, 2, 3} /\ nv \in {1, 2} /\ nrk \in {1, 2} /\ recs = <<>>
+\* nrk = 0: no record keys - the whole table is ONE record
+Init == /\ nk \in {1, 2} /\ nr \in {1, 2, 3} /\ nv \in {1, 2} /\ nrk \in {0, 1, 2} /\ recs = <<>>
 AddRecord ==
   /\ Len(recs) < MaxRecs
+  /\ (nrk = 0 => Len(recs) = 0)
   /\ \E vals \in [Cells -> Vals] :
-       recs' = Append(recs, [rk |-> IF nrk = 1 THEN <<Len(recs) + 1>> ELSE <<Len(recs) + 1, 7>>, vals |-> vals])
+       recs' = Append(recs, [rk |-> IF nrk = 0 THEN <<>> ELSE IF nrk = 1 THEN <<Len(recs) + 1>> ELSE <<Len(recs) + 1, 7>>,
+                            vals |-> vals])
   /\ UNCHANGED <<nk, nr, nv, nrk>>
 Spec == Init /\ [][AddRecord]_vars
 
@@ -68,5 +71,5 @@ ShapeLaw == Len(Blocks) = Len(recs) * nr /\ \A q \in 1..Len(Blocks) : Len(Blocks
 
 Case == [nk |-> nk, nrk |-> nrk, ctrl |-> Ctrl, tall |-> Tall, recs |-> [i \in 1..Len(recs) |-> [rk |-> recs[i].rk, vals |-> recs[i].vals]],
          blocks |-> Blocks, tallblocks |-> RowsToBlocks(Tall, recs)]
-Emit == (Len(recs) = MaxRecs) => PrintT("CASE " \o ToJson(Case))
+Emit == (Len(recs) = MaxRecs \/ (nrk = 0 /\ Len(recs) = 1)) => PrintT("CASE " \o ToJson(Case))
 =============================================================================
